@@ -6,9 +6,69 @@ package keeper
 //
 // verif:import host github.com/teleport-network/teleport/x/xibc/core/host
 // verif:import exported github.com/teleport-network/teleport/x/xibc/exported
-// verif:spec unmarshalIface_ClientState(bz []byte) exported.ClientState
+// verif:spec unmarshalIface(bz []byte) exported.ClientState
 
 // verif:func (Keeper).GetClientState
 //@ ensures [found]  result1 == kvhas(xibc(ctx), host.FullClientStateKey(chainName))
-//@ ensures [value]  result1 ==> result == unmarshalIface_ClientState(kvget(xibc(ctx), host.FullClientStateKey(chainName)))
+//@ ensures [value]  result1 ==> result == unmarshalIface(kvget(xibc(ctx), host.FullClientStateKey(chainName)))
 //@ ensures [nonnil] result1 ==> result != nil
+
+// ---- relayer registry (C06) ----------------------------------------------------------------------
+// verif:import types github.com/teleport-network/teleport/x/xibc/core/client/types
+// verif:spec pbunmarshal_IdentifiedRelayer(bz []byte) types.IdentifiedRelayer
+// verif:pred relayerOf(m, address) := pbunmarshal_IdentifiedRelayer(kvget(m, []byte(types.KeyRelayers + address)))
+
+// verif:func (Keeper).GetRelayer
+//@ ensures [found] result1 == kvhas(xibc(ctx), []byte(types.KeyRelayers + address))
+//@ ensures [value] result1 ==> result == relayerOf(xibc(ctx), address)
+
+// verif:func (Keeper).AuthRelayer
+//@ ensures [unregistered] !kvhas(xibc(ctx), []byte(types.KeyRelayers + relayer)) ==> !result
+//@ ensures [per-chain]    result ==> exists i int :: 0 <= i && i < len(relayerOf(xibc(ctx), relayer).Chains) && relayerOf(xibc(ctx), relayer).Chains[i] == chainName
+
+// verif:func (Keeper).GetRelayerAddressOnOtherChain
+//@ ensures [unregistered] !kvhas(xibc(ctx), []byte(types.KeyRelayers + address)) ==> !result1
+//@ ensures [per-chain]    result1 ==> exists i int :: 0 <= i && i < len(relayerOf(xibc(ctx), address).Chains) && relayerOf(xibc(ctx), address).Chains[i] == chainName && result == relayerOf(xibc(ctx), address).Addresses[i]
+
+// ---- writers of the client part of the xibc store: they never touch packet receipts / acks --------
+// verif:pred receiptsKept(a, b) := forall s string :: forall d string :: forall q uint64 :: kvhas(a, host.PacketReceiptKey(s, d, q)) ==> kvget(b, host.PacketReceiptKey(s, d, q)) == kvget(a, host.PacketReceiptKey(s, d, q))
+// verif:pred acksKept(a, b) := forall s string :: forall d string :: forall q uint64 :: kvhas(a, host.PacketAcknowledgementKey(s, d, q)) ==> kvget(b, host.PacketAcknowledgementKey(s, d, q)) == kvget(a, host.PacketAcknowledgementKey(s, d, q))
+// verif:pred packetStateKept(a, b) := receiptsKept(a, b) && acksKept(a, b)
+
+// verif:func (Keeper).SetClientState
+//@ modifies xibc(ctx)
+//@ ensures [packet-state-kept] packetStateKept(old(xibc(ctx)), xibc(ctx))
+
+// verif:func (Keeper).SetClientConsensusState
+//@ modifies xibc(ctx)
+//@ ensures [packet-state-kept] packetStateKept(old(xibc(ctx)), xibc(ctx))
+
+// verif:func (Keeper).SetChainName
+//@ modifies xibc(ctx)
+//@ ensures [packet-state-kept] packetStateKept(old(xibc(ctx)), xibc(ctx))
+
+// verif:func (Keeper).RegisterRelayers
+//@ modifies xibc(ctx)
+//@ ensures [packet-state-kept] packetStateKept(old(xibc(ctx)), xibc(ctx))
+
+// verif:func (Keeper).SetAllClientMetadata
+//@ modifies xibc(ctx)
+//@ loop 1 invariant [kept] packetStateKept(old(xibc(ctx)), xibc(ctx))
+//@ loop 2 invariant [kept] packetStateKept(old(xibc(ctx)), xibc(ctx))
+//@ ensures [packet-state-kept] packetStateKept(old(xibc(ctx)), xibc(ctx))
+
+// verif:func (Keeper).CreateClient
+//@ modifies xibc(ctx)
+//@ ensures [packet-state-kept] packetStateKept(old(xibc(ctx)), xibc(ctx))
+
+// verif:func (Keeper).UpgradeClient
+//@ modifies xibc(ctx)
+//@ ensures [packet-state-kept] packetStateKept(old(xibc(ctx)), xibc(ctx))
+
+// verif:func (Keeper).ToggleClient
+//@ modifies xibc(ctx)
+//@ ensures [packet-state-kept] packetStateKept(old(xibc(ctx)), xibc(ctx))
+
+// verif:func (Keeper).UpdateClient
+//@ modifies xibc(ctx)
+//@ ensures [packet-state-kept] packetStateKept(old(xibc(ctx)), xibc(ctx))
